@@ -24,7 +24,9 @@ Inductive op :=
 | OKill (a : N)                (* settle; kill actor a; settle *)
 | OHold (a : N)                (* close a's gate: its handler waits for permits *)
 | OGive (a : N) (n : nat)      (* n permits *)
-| OOpen (a : N).               (* open the gate *)
+| OOpen (a : N)                (* open the gate *)
+| OStart (a : N)               (* a's parked pre_start returns Ok: a becomes Running; settle *)
+| OFailStart (a : N).          (* a's parked pre_start returns Err: a dies while Starting; settle *)
 
 Record scen := mkScen {
   sc_poison : list (N * N);    (* (actor, item): the handler fails after receiving item *)
@@ -55,7 +57,7 @@ Fixpoint pick_actor (actors : N -> actor) (h : hst) (l : list N) : option (N * N
   | [] => None
   | a :: t =>
       let x := actors a in
-      if a_alive x && gate_ok h a then
+      if a_alive x && a_started x && gate_ok h a then
         match a_mbox x with
         | (s, r) :: _ => Some (a, s, r)
         | [] => pick_actor actors h t
@@ -155,6 +157,8 @@ Module X1.
                       | None => h_gate h
                       end) (h_dying h) (h_nsub h) (h_actors h))
     | OOpen a => set_h c (mkH (updf (h_gate h) a None) (h_dying h) (h_nsub h) (h_actors h))
+    | OStart a => settle cap p fuel (fire cap c (LStart a))
+    | OFailStart a => settle cap p fuel (fire cap c (LStop a))
     end.
 
   Definition exec (cap : nat) (sc : scen) : cfg :=
@@ -247,6 +251,8 @@ Module X2.
                       | None => h_gate h
                       end) (h_dying h) (h_nsub h) (h_actors h))
     | OOpen a => set_h c (mkH (updf (h_gate h) a None) (h_dying h) (h_nsub h) (h_actors h))
+    | OStart a => settle p fuel (fire c (LStart a))
+    | OFailStart a => settle p fuel (fire c (LStop a))
     end.
 
   Definition exec (sc : scen) : cfg :=
@@ -282,7 +288,8 @@ Fixpoint windows (ops : list op) (cur : list N) : list (list N) * list N :=
   match ops with
   | [] => ([], cur)
   | OPub m :: t => windows t (cur ++ [m])
-  | OSettle :: t | OKill _ :: t => let '(ws, r) := windows t [] in (cur :: ws, r)
+  | OSettle :: t | OKill _ :: t | OStart _ :: t | OFailStart _ :: t =>
+      let '(ws, r) := windows t [] in (cur :: ws, r)
   | _ :: t => windows t cur
   end.
 
@@ -297,10 +304,14 @@ Fixpoint gate_open_at_end (a : N) (ops : list op) (cur : bool) : bool :=
 Definition killed (a : N) (ops : list op) : bool :=
   existsb (fun o => match o with OKill a' => a' =? a | _ => false end) ops.
 
-(* actor a is never killed, never poisoned, and its gate is open in the end *)
+Definition started (a : N) (ops : list op) : bool :=
+  existsb (fun o => match o with OStart a' => a' =? a | _ => false end) ops
+  && negb (existsb (fun o => match o with OFailStart a' => a' =? a | _ => false end) ops).
+
+(* actor a reaches Running, is never killed, never poisoned, and its gate is open in the end *)
 Definition clean (sc : scen) (a : N) : bool :=
   negb (killed a (sc_ops sc)) && negb (existsb (fun x => fst x =? a) (sc_poison sc))
-  && gate_open_at_end a (sc_ops sc) true.
+  && gate_open_at_end a (sc_ops sc) true && started a (sc_ops sc).
 
 Definition check_sub (v2 : bool) (cap : nat) (sc : scen) (a : N) (c : cspec)
            (after : list op) (got : list N) : bool :=
